@@ -34,6 +34,9 @@ type S struct{ Tag int }
 func (s *S) M1(a int) int { return work(a) + 600 + 0*s.Tag }
 
 //go:noinline
+func (s *S) M2(a, b int) int { return work(a) + work(b) + 650 + 0*s.Tag }
+
+//go:noinline
 func (s *S) MV(a int, xs ...int) int { return work(a) + work(len(xs)) + 700 + 0*s.Tag }
 
 var N1Ran int
